@@ -73,6 +73,11 @@ def run(ctx, ck) -> None:
         # the same with x.squeeze(axis=1) / x.squeeze(1): the directions axis is dropped (squeeze refuses an axis that is not of size one)
         if base is idx and idx is not None and idx[0] == 'call' and idx[1][0] == 'attr' and idx[1][2] == 'squeeze' and (idx[2] == (('const', '1'),) or dict(idx[3]).get('axis') == ('const', '1')):
             base = idx[1][1]
+        # x.squeeze() without an axis drops *every* axis of size one (a single detector, a single sample), not only the directions
+        if base is idx and idx is not None and idx[0] == 'call' and idx[1][0] == 'attr' and idx[1][2] == 'squeeze' and not idx[2] and not idx[3]:
+            ck.bad('Q1', proj_fn, 'the directions axis is removed with .squeeze() without an axis: with a single detector or a single sample those axes are dropped as well, and the time-ordered data is no longer '
+                   'indexed by (detector, sample)', instance=inst + ' squeeze', semantic=True)
+            base = idx[1][1]
         reshaped = base is not idx
         ang = base[2][0][1] if base is not None and base[0] == 'call' and base[1] == ('attr', land, 'world2index') and len(base[2]) == 2 and base[2][0][0] == 'item' else None
         ok_idx = ang is not None and base[2] == (('item', ang, 0), ('item', ang, 1)) and ang[0] == 'call' and ang[1] == ('var', 'vec2dir') and len(ang[2]) == 1 and ang[2][0][0] == 'star'
